@@ -44,7 +44,7 @@ def ClusterSt.check (c : ClusterSt) (i : Nat) : ClusterSt :=
   | some v => { c with views := c.views.set i (some (v.check c.backends (c.replies i))) }
   | none => c
 
-def clusterOps : List String := ["cluster", "cstart", "cstop", "ccheck", "cstate", "cquery", "cend"]
+def clusterOps : List String := ["cluster", "cstart", "cstop", "ccheck", "cstate", "cquery", "cend", "creload"]
 
 structure Full where
   st : State
@@ -264,6 +264,8 @@ partial def loop (h : IO.FS.Stream) (out : IO.FS.Stream) (f : Full) : IO Unit :=
           let c := ((jArr j "start").map fun x => match x with | .num m => m.mantissa.toNat | _ => 0).foldl ClusterSt.start c0
           loop h out { f with cl := c }
         | "cstart" => loop h out { f with cl := f.cl.start node }
+        -- a reload creates the node accessor anew: a new identifier, an empty view, the first check
+        | "creload" => loop h out { f with cl := f.cl.start node }
         | "cstop" => loop h out { f with cl := { f.cl with views := f.cl.views.set node none } }
         | "ccheck" => loop h out { f with cl := f.cl.check node }
         | "cstate" =>
